@@ -23,10 +23,10 @@ CHECKS = {
    cat="proof",
    text="Lean theorems: the well-formedness invariant WF (signatures, canonical charges, strictly ascending unique keys, selection rule under the regenerated group law, "
         "positive consistent dimensions) is preserved by element-wise ops, conj/flip_signature, add/sub, transpose, tensordot, trace, add_leg, remove_leg, broadcast, apply_mask and diag for ALL well-formed operands, with the total "
-        "charge algebra (sum for contraction via the C19 grouping law, negation for conj, unchanged by trace, n±t for add/remove_leg, unchanged otherwise); eval_wf lifts it to every finite program; forbidden dense "
+        "charge algebra (sum for contraction via the C19 grouping law, negation for conj, unchanged by trace, n±t for add/remove_leg, unchanged otherwise); eval_wf lifts it to every finite program; wf_fuseHard: hard fusion over every partition of the legs yields a well-formed tensor; forbidden dense "
         "elements are zero; the driver's executable wf flag is proved sound for WF. Tie: program correspondence on structure after every step + is_consistent() + "
         "independent selection-rule/order/shape/size/fusion-meta oracle, forbidden-zero oracle and charge table on the real code (also for svd/qr/fuse/ncon results).",
-   note=TB + "fusion/factorisation/ncon/einsum/diag/mask results are covered by correspondence and oracles, not by WF theorems. Ops outside the model: autograd, to(device), torch backends.",
+   note=TB + "factorisation/ncon/einsum results (and unfuse, meta fusion) are covered by correspondence and oracles, not by WF theorems. Ops outside the model: autograd, to(device), torch backends.",
    technique="Lean 4 proof (invariant preserved by every modelled op and program) + structural correspondence/oracles", design="§5 C02"),
  "C03": dict(
    cat="proof",
